@@ -234,7 +234,8 @@ returns a URL with the same fragments, resource type and ID, relationship, field
 (as sets), sorting rules, page parameters (collection URLs), filter label and filter, and the
 same `String()`. Hypotheses as in `C08F_reparse_real`: schema invariant, member names, no
 empty field selection (known finding C08-type-without-fields), a label whose JSON body does
-not start with '{'. -/
+not start with '{' (`C07G_reparse` in Props/C08G.lean is this theorem without that last
+hypothesis). -/
 theorem C07B_reparse (nc : GoString → GoString) (hnc : NumCanonLaws nc) (σ : Schema)
     (raw : GoString) (u : URL) (hσ : Inv σ) (hn : NamesOK σ)
     (h : newURLFromRawReal nc σ raw = .ok u) (hne : NoEmptySelection u)
